@@ -1274,3 +1274,198 @@ Theorem C08_add_helpers_nonvacuous :
           ∧ map_to_list (h_str h') = map_to_list (h_str hobj) ∧ h_req h' = 3 ).
 Proof. exact (conj ex_add_string_any_oracle (conj ex_add_string_refused_clean (conj ex_add_string_refused_1 (conj ex_add_string_refused_2 (conj ex_add_string_refused_3 (conj ex_add_string_granted ex_add_string_null_name)))))). Qed.
 Print Assumptions C08_add_helpers_nonvacuous.
+
+(** ------------------------------------------------------------------ tree API: HISTORIES under allocation failure
+
+    The single-call statements above, lifted to histories (CoreHistoryFail*.v).  Alphabet: [CoreHistoryAll.op3], the
+    whole public edit/query API of C06 (constructors with and without payload, reference constructors, bulk array
+    constructors, the cJSON_Add<Type>ToObject helpers, cJSON_AddItemReferenceToArray/Object, add / insert / detach /
+    replace / delete by pointer, index and key, replace by key, the setters incl. cJSON_SetValuestring, the queries,
+    caller strings).  Rule checker: [CoreHistoryAll.pre_ok3b], the one of C06_history, UNCHANGED.
+
+      [run_op3o o] / [run_ops3o o]   the proof-side interpreter with the failure schedule [o : nat -> bool] as a
+                                     parameter (request number k, counted over the whole history from 0, is refused iff
+                                     [o k = true]);
+      [spec_step3o o]                the list model with failure, a FUNCTION of the schedule (the abstract state carries
+                                     the request counter [req S]);
+      [spec_step_fail o S op]        what that function is: with n := [nreq3 S op], the number of requests the call makes
+                                     when nothing is refused (the advance of the request counter in the never-failing
+                                     model [spec_step3]):  if [o] grants requests req S .. req S + n - 1 then the NORMAL
+                                     step [spec_step3 S op], else for the FIRST refused one, j: the documented failure
+                                     value [fail_res3 op] (NULL / false) and [refused_state S j] — forest, string heap
+                                     and caller blocks of S, only the allocator counters advanced;
+      [pre_ok_all3ob o S ops]        every call is accepted by [pre_ok3b] in the abstract state reached under [o].  *)
+From CJ Require Import CoreRefineHistoryObj CoreRefineHistoryObjEx CoreLedgerGen CoreHistoryAllSteps CoreHistoryAll
+  CoreLedgerAll CoreHistoryAllEx CoreLedgerDup CoreHistoryFailSteps CoreHistoryFailArr CoreHistoryFail CoreHistoryFailSpec
+  CoreHistoryFailHist CoreHistoryFailDup.
+From CJ Require CoreOps.
+
+(* the generalised interpreter and model coincide with those of C06_history for the schedule that never refuses *)
+Theorem C08_history_conservative :
+  (forall op, run_op3o never op = run_op3 op) /\
+  (forall ops, run_ops3o never ops = run_ops3 ops) /\
+  (forall S op, spec_step3o never S op = spec_step3 S op) /\
+  (forall ops S, spec_run3o never S ops = spec_run3 S ops) /\
+  (forall ops S, spec_results3o never S ops = spec_results3 S ops) /\
+  (forall ops S, pre_ok_all3ob never S ops = pre_ok_all3b S ops).
+Proof. exact (conj run_op3o_never (conj run_ops3o_never (conj spec_step3o_never (conj spec_run3o_never (conj spec_results3o_never pre_ok_all3ob_never))))). Qed.
+Print Assumptions C08_history_conservative.
+
+(* the list model with failure has exactly two kinds of step, and the schedule decides which: in every represented
+   state and for every accepted call it is [spec_step_fail] *)
+Theorem C08_history_model :
+  forall (o : nat -> bool) (h : heap) (S : astate2) (op : op3),
+    Abs3 h S -> pre_ok3 S op -> spec_step3o o S op = spec_step_fail o S op.
+Proof. exact spec_step3o_fail. Qed.
+Print Assumptions C08_history_model.
+(* … read as two implications: every request of the failure-free call granted => the normal step; request j the first
+   refused one among them => the refused step; a call that never asks the allocator => the normal step *)
+Theorem C08_history_model_branches :
+  (forall (o : nat -> bool) h S op,
+     Abs3 h S -> pre_ok3 S op ->
+     (forall k, (req S <= k < req S + nreq3 S op)%nat -> o k = false) ->
+     spec_step3o o S op = spec_step3 S op) /\
+  (forall (o : nat -> bool) h S op j,
+     Abs3 h S -> pre_ok3 S op ->
+     (req S <= j < req S + nreq3 S op)%nat -> o j = true -> (forall k, (req S <= k < j)%nat -> o k = false) ->
+     spec_step3o o S op = (refused_state S j, fail_res3 op)) /\
+  (forall (o : nat -> bool) S op, op3_allocates op = false -> spec_step_fail o S op = spec_step3 S op) /\
+  (forall S j, a_forest (refused_state S j) = a_forest S /\ a_str (refused_state S j) = a_str S /\
+               a_foreign (refused_state S j) = a_foreign S /\ req (refused_state S j) = Datatypes.S j).
+Proof. exact (conj step_fail_normal (conj step_fail_refused (conj step_fail_noalloc refused_state_same))). Qed.
+Print Assumptions C08_history_model_branches.
+
+(* ONE call under any schedule from any represented state: no error outcome, the model's result, the representation
+   and the exact ledger again, one of the two steps; over a refused call node maps, string map and the set of live
+   library blocks of the heap are what they were *)
+Theorem C08_history_one_call :
+  forall (o : nat -> bool) (h : heap) (S : astate2) (op : op3),
+    Abs3 h S -> pre_ok3 S op ->
+    let S' := (spec_step3o o S op).1 in let r := (spec_step3o o S op).2 in
+    exists h',
+      run_op3o o op h = Ret (r, h') /\ Abs3 h' S' /\
+      (forall b, b ∈ lib_live h' <-> b ∈ owned (a_forest S')) /\
+      step_branch o S op S' r /\
+      (forall j, first_refusal o (req S) (nreq3 S op) = Some j ->
+         h_lnk h' = h_lnk h /\ h_dat h' = h_dat h /\ h_str h' = h_str h /\ lib_live h' = lib_live h).
+Proof. exact call_fail. Qed.
+Print Assumptions C08_history_one_call.
+
+(* THE HISTORY THEOREM: every schedule, every accepted history, EVERY call of it (ops1 = the calls before it) *)
+Theorem C08_history :
+  forall (o : nat -> bool) (ops1 : list op3) (op : op3) (ops2 : list op3),
+    pre_ok_all3ob o S0 (ops1 ++ op :: ops2) = true ->
+    let S := spec_run3o o S0 ops1 in
+    let S' := (spec_step3o o S op).1 in let r := (spec_step3o o S op).2 in
+    exists h h',
+      run_ops3o o ops1 empty_heap = Ret (spec_results3o o S0 ops1, h) /\ Abs3 h S /\
+      run_op3o o op h = Ret (r, h') /\ Abs3 h' S' /\
+      (forall b, b ∈ lib_live h' <-> b ∈ owned (a_forest S')) /\
+      step_branch o S op S' r /\
+      (forall j, first_refusal o (req S) (nreq3 S op) = Some j ->
+         h_lnk h' = h_lnk h /\ h_dat h' = h_dat h /\ h_str h' = h_str h /\ lib_live h' = lib_live h).
+Proof. exact history_fail_every_call_checked. Qed.
+Print Assumptions C08_history.
+
+(* … the whole history and the clean-up: no error outcome, the model's results, exact ledger; cJSON_Delete of every
+   remaining root never errs and ends with NO live library block; borrowed memory is untouched *)
+Theorem C08_history_balanced :
+  forall (o : nat -> bool) (ops : list op3),
+    pre_ok_all3ob o S0 ops = true ->
+    let S1 := spec_run3o o S0 ops in
+    exists h1 h2,
+      run_ops3o o ops empty_heap = Ret (spec_results3o o S0 ops, h1) /\
+      Abs3 h1 S1 /\
+      (forall b, b ∈ lib_live h1 <-> b ∈ owned (a_forest S1)) /\
+      delete_roots (roots (a_forest S1)) h1 = Ret (tt, h2) /\
+      lib_live h2 = ∅ /\ lib_live empty_heap = ∅ /\
+      (forall b, h_own h1 !! b = Some Foreign -> b ∈ h_live h1 -> b ∈ h_live h2 /\ h_str h2 !! b = h_str h1 !! b).
+Proof. exact history_fail_balanced. Qed.
+Print Assumptions C08_history_balanced.
+(* … from any represented state *)
+Theorem C08_history_from_any_state :
+  forall (o : nat -> bool) (ops : list op3) (h : heap) (S : astate2),
+    Abs3 h S -> pre_ok_all3o o S ops ->
+    exists h', run_ops3o o ops h = Ret (spec_results3o o S ops, h') /\ Abs3 h' (spec_run3o o S ops).
+Proof. exact history_sim3o. Qed.
+Print Assumptions C08_history_from_any_state.
+
+(* a single failing request: [CoreOps.fail_kth (k+1)] refuses request number k and nothing else; the call during which
+   request k would be made takes the refused step at k, every other call the normal step *)
+Theorem C08_history_fail_kth :
+  (forall h S op k,
+     Abs3 h S -> pre_ok3 S op ->
+     spec_step3o (CoreOps.fail_kth (Datatypes.S k)) S op =
+     if (req S <=? k)%nat && (k <? req S + nreq3 S op)%nat then (refused_state S k, fail_res3 op) else spec_step3 S op) /\
+  (forall k ops,
+     pre_ok_all3ob (CoreOps.fail_kth k) S0 ops = true ->
+     let o := CoreOps.fail_kth k in
+     let S1 := spec_run3o o S0 ops in
+     exists h1 h2,
+       run_ops3o o ops empty_heap = Ret (spec_results3o o S0 ops, h1) /\ Abs3 h1 S1 /\
+       (forall b, b ∈ lib_live h1 <-> b ∈ owned (a_forest S1)) /\
+       delete_roots (roots (a_forest S1)) h1 = Ret (tt, h2) /\ lib_live h2 = ∅).
+Proof. exact (conj step_fail_kth history_fail_kth). Qed.
+Print Assumptions C08_history_fail_kth.
+
+(* cJSON_Duplicate (not a call of the alphabet: its result is specified by C11's relation [copy_of]) after a history,
+   under the same schedule: a copy as a new root, or NULL with only the allocator counters advanced; either way the
+   state reached is represented (the history theorem continues from it) and the clean-up balances the ledger *)
+Theorem C08_history_then_duplicate :
+  (forall (o : nat -> bool) h S p t,
+     Abs3 h S -> find_tree p (a_forest S) = Some t ->
+     vals_readable S t -> no_borrowed t -> (height t <= Z.to_nat Constants.c_CJSON_CIRCULAR_LIMIT)%nat ->
+     exists r h' S',
+       cJSON_Duplicate o (Some p) true h = Ret (r, h') /\ Abs3 h' S' /\ a_foreign S' = a_foreign S /\
+       ((r = None /\ S' = with_counters S (h_next h') (h_req h') /\
+         h_lnk h' = h_lnk h /\ h_dat h' = h_dat h /\ h_str h' = h_str h /\ h_live h' = h_live h /\
+         lib_live h' = lib_live h /\ ofail o h h')
+        \/ (exists tc, r = Some (tid tc) /\ copy_of h' t tc /\ a_forest S' = a_forest S ++ [tc] /\
+              (forall b, b ∈ owned [tc] -> (h_next h <= b)%positive /\ b ∉ h_live h) /\ oclean o h h'))) /\
+  (forall (o : nat -> bool) ops p,
+     pre_ok_all3ob o S0 ops = true -> dup_okb (spec_run3o o S0 ops) p = true ->
+     exists h1 r h2 S2 h3,
+       run_ops3o o ops empty_heap = Ret (spec_results3o o S0 ops, h1) /\
+       cJSON_Duplicate o (Some p) true h1 = Ret (r, h2) /\ Abs3 h2 S2 /\
+       (r = None -> a_forest S2 = a_forest (spec_run3o o S0 ops) /\ h_lnk h2 = h_lnk h1 /\ h_dat h2 = h_dat h1 /\
+                    h_str h2 = h_str h1 /\ lib_live h2 = lib_live h1) /\
+       delete_roots (roots (a_forest S2)) h2 = Ret (tt, h3) /\ lib_live h3 = ∅ /\
+       (forall b, h_own h1 !! b = Some Foreign -> b ∈ h_live h1 -> b ∈ h_live h3 /\ h_str h3 !! b = h_str h1 !! b)).
+Proof. exact (conj dup_two_branches history_dup_balanced). Qed.
+Print Assumptions C08_history_then_duplicate.
+
+(* NON-VACUITY: [ex8], 19 calls — an object with owned and constant keys, strings, a number added by a helper, an item
+   reference, replace by key, cJSON_SetValuestring in place and growing, a bulk constructor, queries — under the
+   schedule that refuses requests 4 (the node of cJSON_AddNumberToObject) and 9 (the copy of the name in
+   cJSON_AddItemReferenceToObject, after its node was allocated).  The checker accepts it; the model's results are
+   NULL / false at the two refused calls and the normal results elsewhere; both branches occur; the refused calls leave
+   forest and strings as they were; the transliterated code RUN under the schedule returns exactly the model's results,
+   and after cJSON_Delete of the two remaining roots no library block is live (the three caller strings are). *)
+Theorem C08_history_nonvacuous :
+  pre_ok_all3ob ex8_oracle S0 ex8 = true /\
+  length ex8 = 19%nat /\
+  spec_results3o ex8_oracle S0 ex8 =
+    [R (RPtr (Some 1)); R (RPtr (Some 2)); R (RPtr (Some 3)); R (RPtr (Some 4)); R (RBool true);
+     R (RPtr None); R (RPtr (Some 7)); R (RPtr (Some 9)); R (RBool true);
+     R (RBool false); R (RBool true); R (RPtr (Some 13)); R (RBool true); R (RPtr (Some 5));
+     R (RPtr (Some 16)); R (RPtr (Some 17)); R (RPtr (Some 18)); R (RPtr (Some 13)); R (RInt 4)]%positive /\
+  branches ex8_oracle S0 ex8 =
+    [None; None; None; None; None; Some 4%nat; None; None; None; Some 9%nat; None; None; None; None; None; None; None; None; None] /\
+  (let S5 := spec_run3o ex8_oracle S0 (take 5 ex8) in let S6 := spec_run3o ex8_oracle S0 (take 6 ex8) in
+   let S9 := spec_run3o ex8_oracle S0 (take 9 ex8) in let S10 := spec_run3o ex8_oracle S0 (take 10 ex8) in
+   a_forest S6 = a_forest S5 /\ map_to_list (a_str S6) = map_to_list (a_str S5) /\
+   a_forest S10 = a_forest S9 /\ map_to_list (a_str S10) = map_to_list (a_str S9) /\
+   (nxt S5, req S5, nxt S6, req S6) = (7%positive, 4%nat, 7%positive, 5%nat) /\
+   (nxt S9, req S9, nxt S10, req S10) = (10%positive, 8%nat, 11%positive, 10%nat)) /\
+  results_of (run_ops3o ex8_oracle ex8) empty_heap = Some (spec_results3o ex8_oracle S0 ex8) /\
+  roots (a_forest (spec_run3o ex8_oracle S0 ex8)) = [3; 18]%positive /\
+  ledger_after (run_ops3o ex8_oracle ex8 ;;; delete_roots [3; 18]%positive) empty_heap = Some ([], [1; 2; 16]%positive) /\
+  (exists h1 h2,
+     run_ops3o ex8_oracle ex8 empty_heap = Ret (spec_results3o ex8_oracle S0 ex8, h1) /\
+     Abs3 h1 (spec_run3o ex8_oracle S0 ex8) /\
+     (forall b, b ∈ lib_live h1 <-> b ∈ owned (a_forest (spec_run3o ex8_oracle S0 ex8))) /\
+     delete_roots (roots (a_forest (spec_run3o ex8_oracle S0 ex8))) h1 = Ret (tt, h2) /\
+     lib_live h2 = ∅ /\ lib_live empty_heap = ∅ /\
+     (forall b, h_own h1 !! b = Some Foreign -> b ∈ h_live h1 -> b ∈ h_live h2 /\ h_str h2 !! b = h_str h1 !! b)).
+Proof. exact (conj ex8_accepted (conj eq_refl (conj ex8_results (conj ex8_branches (conj ex8_refused_unchanged (conj ex8_run_results (conj ex8_roots (conj ex8_run_balanced ex8_history)))))))). Qed.
+Print Assumptions C08_history_nonvacuous.
